@@ -11,19 +11,19 @@ CHECKS = {
          "Every source-readiness pattern of the real encoder (all message sequences/codecs/encodings/buffer settings in the alphabet) and every chunking of its output within the bound (all compositions for short identity streams, <= 2/3 cuts + Pending + empty frames otherwise, plus byte drip) fed to the real Streaming decoder; decoded messages must equal the originals, encoder bytes must be independent of readiness/batching, and an independent frame parser + decompressor must recover the serialisations.",
          "Payload values: two byte patterns x sizes, not all bytes; chunkings beyond the cut bound only via drip; flate2/zstd trusted as reference.", "3/C01"),
  "C02": ("model_checking", TECH,
-         "Generated client wired in-process to the generated server: all four shapes x request sequences x handler scripts (initial metadata, messages, every non-OK code with message/details/metadata menus, handler-level errors, echo/read-all/ignore modes); both bodies re-delivered under every chunking within the bound, sources answering Pending; the caller's and handler's views are compared with the script.",
-         "L1 (http-body level) only so far: hyper/h2 frame interleavings are represented by body chunkings; reserved metadata names belong to C08.", "3/C02"),
+         "Generated client wired in-process to the generated server: all four shapes x request sequences x handler scripts (initial metadata, messages, every non-OK code with message/details/metadata menus, handler-level errors, echo/read-all/ignore modes); both bodies re-delivered under every chunking within the bound, sources answering Pending; the same scripts again through the real transport (Endpoint::connect_with_connector -> Channel -> hyper/h2 -> in-memory pipe with a fragmentation menu -> Server) in virtual time, plus compressed large compressible/incompressible messages in both directions; the caller's and handler's views are compared with the script; message sources must never be polled after their end.",
+         "hyper/h2 frame interleavings are represented by body chunkings (L1) and by a menu of six pipe fragmentation patterns (L2), not enumerated below event granularity; reserved metadata names belong to C08.", "3/C02"),
  "C03": ("model_checking", TECH,
-         "EncodeBody for every message sequence x encoding x role x outcome (OK, source error, encoder failure, size limit) under every source-readiness pattern, polled to exhaustion, plus the captured http request/response of every C02 call case x compression configuration, judged by an independent frame parser/decompressor: POST, HTTP/2, path, content-type, te, exactly one grpc-status in the right place, nothing after the trailers, flags and compression as announced.",
-         "Judged on the http::Request/Response tonic hands to the transport; hyper/h2 serialisation trusted. Handler streams that yield after their first Err are outside the alphabet.", "3/C03"),
+         "EncodeBody for every message sequence x encoding x role x outcome (OK, source error, encoder failure, size limit) under every source-readiness pattern, polled to exhaustion, plus the captured http request/response of every C02 call case x compression configuration, judged by an independent frame parser/decompressor: POST, HTTP/2, path, content-type, te, exactly one grpc-status in the right place, nothing after the trailers, flags and compression as announced; and the messages that really cross the transport, observed by NON-tonic peers (tonic client -> bare hyper HTTP/2 server; bare hyper client -> tonic Server) over in-memory pipes.",
+         "hyper/h2 are the transport under the bare peers (their HTTP/2 serialisation is trusted). Handler streams that yield after their first Err are outside the alphabet.", "3/C03"),
  "C04": ("exploration", EXH,
          "Every status in the stated alphabets (17 codes, per-byte-class message menu, all details of length <= 2 and every length mod 3, metadata maps incl. forged reserved names) round-trips through add_header/into_http -> from_header_map and the real client, with raw header bytes judged by hand-written percent/base64 decoders; every header map from the malformed-value menus is read without panic; every HTTP status 100..=599 and HTTP/2 error code is compared with tables transcribed from grpc/doc.",
          "Small-scope exhaustiveness (one value per branch of the encoding set), not a proof; leading-zero grpc-status values may be read numerically or as UNKNOWN; h2 errors built from a Reason only.", "3/C04"),
  "C05": ("exploration", EXH,
-         "Generated server with every ordered subset of {gzip,deflate,zstd} for send and for accept x a menu of grpc-accept-encoding / grpc-encoding header values (lists, spacing, unknown/upper-case/obs-text tokens) x compressed-flag/payload combinations x shapes, and the generated client with every send/accept configuration against scripted responses; announced encodings must be configured and offered, refusals UNIMPLEMENTED with the exact accept set, flag 1 without encoding INTERNAL.",
+         "Generated server with every ordered subset of {gzip,deflate,zstd} for send and for accept x a menu of grpc-accept-encoding / grpc-encoding header values (lists, spacing, unknown/upper-case/obs-text tokens) x compressed-flag/payload combinations x shapes, and the generated client with every send/accept configuration against scripted responses; announced encodings must be configured and offered, refusals UNIMPLEMENTED with the exact accept set, flag 1 (also with a zero-length payload) without encoding INTERNAL; the same negotiation with the server behind GrpcWebLayer (the layer must not offer encodings on the client's behalf).",
          "Token matching uses the liberal reading (whitespace, ASCII case) so a stricter tonic never alarms; whether an eligible encoding must be used is left open.", "3/C05"),
  "C06": ("model_checking", TECH,
-         "Decoder: limits {0,1,5,64,4 MiB} x wire lengths L-1/L/L+1 (identity and compressed) x position x bare prefixes declaring up to 2^32-1 under every chunking within the bound; OUT_OF_RANGE must come with no chunk requested beyond the one completing the prefix and (tracking allocator) no reservation of the declared length. Encoder: oversized item at every position under every readiness pattern and both batching regimes; every earlier frame must be delivered before the status (thorough adds the > 4 GiB branch).",
+         "Decoder: limits {0,1,5,64,4 MiB} x wire lengths L-1/L/L+1 (identity and compressed) x position x bare prefixes declaring up to 2^32-1 under every chunking within the bound; OUT_OF_RANGE must come with no chunk requested beyond the one completing the prefix and (tracking allocator) no reservation of the declared length. Encoder: oversized item at every position under every readiness pattern and both batching regimes; every earlier frame must be delivered before the status (thorough adds the > 4 GiB branch); limits of 2^32 and more must not be truncated; limits set through the generated client/server builders ({none, decoding, encoding, both} on each side) are enforced end to end.",
          "Limits outside the menu are represented by these; allocation check applies to bare prefixes >= 1 MiB.", "3/C06"),
  "C07": ("model_checking", TECH,
          "Every chunking/Pending/empty-frame schedule with <= bound deviations (plus drip) of every hostile input in the stated alphabets is executed on the real Streaming decoder and compared with an independent longest-valid-prefix parser; first error must be final, no panic, no busy loop.",
@@ -33,9 +33,9 @@ CHECKS = {
          "exhaustive over the listed alphabets only; forgery is judged by value with menus tonic never sends itself; the transport pass judges the peer's view only.", "3/C08"),
  "C09": ("exploration", EXH,
          "Request::set_timeout over durations around every unit boundary and every power of ten up to the largest representable: the emitted grpc-timeout must match the grammar, denote <= requested and lose < 1 unit; the private parser (hook H1) is run on every digit string of 1..4 digits x 6 units, and on the 5..8 digit strings by blocks (thorough: all 666 666 660 conformant values), plus every string <= 3/4 chars over a malformed alphabet and a malformed menu: conformant => exactly the denoted Duration, malformed => ignored.",
-         "Enforcement (shortest deadline wins, in virtual time) is added by the VNet section when present in the evidence; parser observed through the add-only hook.", "3/C09"),
+         "Enforcement runs in virtual time (paused tokio clock) against NON-tonic peers so that one side cannot mask the other: the full caller x configured x latency grid for Server::timeout (bare hyper client) and Endpoint::timeout + set_timeout (bare hyper server), zero deadlines, malformed caller values with a configured timeout, and a tonic-to-tonic pass for the status text; parser observed through the add-only hook.", "3/C09"),
  "C10": ("exploration", EXH,
-         "Every non-empty subset of five generated fixture services whose names are prefixes / case variants / package-less variants of one another, registered in several orders through Routes/RoutesBuilder with plain, intercepted and grpc-web wrapping, is sent every path of a mutation menu (exact, query, trailing slash, extra/empty/dot segments, one char added/removed, case flips, percent-encoded letters) and compared with a reference router: the handler (S, M) runs iff the path is exactly /S/M, otherwise no handler runs and grpc-status is 12.",
+         "Every non-empty subset of five generated fixture services whose names are prefixes / case variants / package-less variants of one another, registered in several orders through Routes/RoutesBuilder with plain, intercepted and grpc-web wrapping, is sent every path of a mutation menu (exact, query, trailing slash, extra/empty/dot segments, one char added/removed, case flips, percent-encoded letters) and compared with a reference router: the handler (S, M) runs iff the path is exactly /S/M, otherwise no handler runs and grpc-status is 12; the same through the real transport server (Server::builder().add_service / add_optional_service(Some|None)) with a bare hyper HTTP/2 client sending every path.",
          "Request targets the http crate cannot represent are outside the alphabet; the fixture servers are generated by the real tonic_build at harness build time.", "3/C10"),
  "C11": ("translation_validation", "exhaustive enumeration of a bounded service-definition grammar through the real generator; generated code parsed with syn and compared with a reference computed from the descriptor; byte comparison of committed generated files with a regeneration",
          "Every service definition of a bounded grammar (package absent/simple/nested x service names x 1..3 methods over CamelCase/snake/digit/Rust-keyword identifiers x 4 streaming kinds x emit_package x use_arc_self x default stubs x build_transport x client/server only) goes through the real tonic_build via both front ends (manual and .proto -> protox -> compile_fds); client path literal, GrpcMethod strings, Grpc call, shape and types, server match arm, Grpc call, trait and SERVICE_NAME are extracted with syn and compared with a descriptor-only reference and with each other; the committed health/reflection/types generated files are validated the same way and byte-compared with what the repo's codegen crate regenerates from the current tree.",
